@@ -67,6 +67,96 @@ theorem real_geometry_partition (cpus s : Nat) (hs : s < shardCount cpus) :
   have b := (mem_shardsOf.mp h2).2
   omega
 
+/-! ### a dropped wake-up is harmless (model `Shards.WB`: bounded request channels, `try_send`) -/
+
+/-- every shard a tick saw non-empty (or that filled up) and that has not been drained since has
+a request waiting in its owner's channel; the same for pending retirements and worker 0 -/
+structure WInv (b : WB) : Prop where
+  wpos : 0 < b.W
+  shard : ∀ s, b.marked s = true → s < b.S ∧ 0 < b.pending (s % b.W)
+  retire : b.retireMarked = true → 0 < b.pending 0
+
+theorem trySend_pos (p : Nat → Nat) (w : Nat) : 0 < trySend p w w := by
+  simp only [trySend, if_true]; omega
+
+theorem trySend_mono (p : Nat → Nat) (w j : Nat) (h : 0 < p j) : 0 < trySend p w j := by
+  simp only [trySend]; split <;> omega
+
+theorem wake_mono (W : Nat) (ws : List Nat) : ∀ (p : Nat → Nat) (j : Nat), 0 < p j → 0 < wake W p ws j := by
+  induction ws with
+  | nil => intro p j h; exact h
+  | cons w ws ih => intro p j h; exact ih _ j (trySend_mono p w j h)
+
+theorem wake_pos (W : Nat) (ws : List Nat) : ∀ (p : Nat → Nat) (w : Nat), w ∈ ws → 0 < wake W p ws w := by
+  induction ws with
+  | nil => intro p w h; cases h
+  | cons x xs ih =>
+    intro p w h
+    rcases List.mem_cons.mp h with rfl | h'
+    · exact wake_mono W xs _ _ (trySend_pos p w)
+    · exact ih _ w h'
+
+/-- the invariant holds along every sequence of enqueues, retirement requests, ticks, full-shard
+triggers and worker wake-ups, in any order -/
+theorem wstep_inv {b : WB} (e : WEv) (h : WInv b) : WInv (wstep b e) := by
+  obtain ⟨hW, hs, hr⟩ := h
+  cases e with
+  | enqueue s => exact ⟨hW, hs, hr⟩
+  | queueRetirement => exact ⟨hW, hs, hr⟩
+  | tick =>
+    refine ⟨hW, ?_, ?_⟩
+    · intro s hm
+      simp only [wstep, Bool.or_eq_true, Bool.and_eq_true, decide_eq_true_eq] at hm ⊢
+      rcases hm with hm | ⟨hlt, hc⟩
+      · exact ⟨(hs s hm).1, wake_mono _ _ _ _ (hs s hm).2⟩
+      · exact ⟨hlt, wake_pos _ _ _ _ (tick_wakes_every_owner hW b.count b.retire s hlt hc)⟩
+    · intro hm
+      simp only [wstep, Bool.or_eq_true] at hm ⊢
+      rcases hm with hm | hm
+      · exact wake_mono _ _ _ _ (hr hm)
+      · rw [hm]; exact wake_pos _ _ _ _ (tick_wakes_retirer hW b.count)
+  | full s =>
+    refine ⟨hW, ?_, ?_⟩
+    · intro j hm
+      simp only [wstep, Bool.or_eq_true, Bool.and_eq_true, decide_eq_true_eq, beq_iff_eq] at hm ⊢
+      rcases hm with hm | ⟨hlt, rfl⟩
+      · exact ⟨(hs j hm).1, trySend_mono _ _ _ (hs j hm).2⟩
+      · exact ⟨hlt, trySend_pos _ _⟩
+    · intro hm; exact trySend_mono _ _ _ (hr hm)
+  | process w =>
+    simp only [wstep]
+    split
+    · exact ⟨hW, hs, hr⟩
+    · rename_i hp
+      refine ⟨hW, ?_, ?_⟩
+      · intro s hm
+        simp only at hm ⊢
+        split at hm
+        · cases hm
+        · rename_i hne
+          have := hs s hm
+          refine ⟨this.1, ?_⟩
+          rw [if_neg hne]; exact this.2
+      · intro hm
+        simp only at hm ⊢
+        split at hm
+        · cases hm
+        · rename_i hne
+          have : ¬ (0 = w) := fun h0 => hne h0.symm
+          rw [if_neg this]; exact hr hm
+
+/-- **A woken worker drains everything it owns**: after worker `w` has taken a request, none of
+its shards is marked any more and they are empty — so every entry a tick saw is durable after at
+most one wake-up of its owner, whether or not the tick's own `try_send` was dropped. -/
+theorem process_drains (b : WB) (w : Nat) (hp : 0 < b.pending w) (s : Nat) (hs : s % b.W = w) :
+    (wstep b (.process w)).count s = 0 ∧ (wstep b (.process w)).marked s = false := by
+  have : ¬ b.pending w = 0 := by omega
+  simp [wstep, this, hs]
+
+/-- the waiting request exists: for a marked shard the owner's `process` step is enabled -/
+theorem marked_shard_has_a_request {b : WB} (h : WInv b) (s : Nat) (hm : b.marked s = true) :
+    0 < b.pending (s % b.W) := (h.shard s hm).2
+
 /-! ### non-vacuity -/
 example : shardsOf 3 8 1 = [1, 4, 7] := by decide
 example : wakeSet 3 8 (fun s => if s = 7 then 2 else 0) false = [1] := by decide
